@@ -70,7 +70,7 @@ func HeredocText(h *Heredoc) string {
 		b.WriteByte('\n')
 	}
 	if h.TabTerm {
-		b.WriteByte('\t')
+		b.WriteString(strings.Repeat("\t", 1+h.MoreTabs))
 	}
 	if rs := []rune(h.DelimText); h.ContTerm > 0 && h.ContTerm <= len(rs) {
 		b.WriteString(string(rs[:h.ContTerm]) + "\\\n" + string(rs[h.ContTerm:]))
